@@ -4,7 +4,7 @@
 id="$1"; diff="$2"; demo="$3"
 wt=/tmp/wt/verify_$id
 out=/tmp/wt/verify_$id.json
-rm -rf "$wt"; git -C /repo worktree prune
+git -C /repo worktree remove --force "$wt" 2>/dev/null; rm -rf "$wt"
 git -C /repo worktree add -q "$wt" HEAD || exit 9
 cd "$wt"
 export JAX_PLATFORMS=cpu
